@@ -599,8 +599,13 @@ func (w *World) do(kind string) {
 	case "eds-relabel":
 		// metadata.labels of the ExtendedDaemonSet change (a chart version bump, a team label...)
 		e := w.pickEDS()
-		k := rapid.SampledFrom([]string{"team", "chart", "app.kubernetes.io/version"}).Draw(w.rt, "edsLabelKey")
+		// ... or labels pasted from one of its own objects: the keys the controller reserves for its replica sets and
+		// pods, with a stale or foreign value (the object's own name label must win on everything it creates)
+		k := rapid.SampledFrom([]string{"team", "chart", "app.kubernetes.io/version", oracle.LabelEDSName, oracle.LabelRSName}).Draw(w.rt, "edsLabelKey")
 		v := rapid.SampledFrom([]string{"-", "a", "b", "1.2.3"}).Draw(w.rt, "edsLabelVal")
+		if k == oracle.LabelEDSName || k == oracle.LabelRSName {
+			v = rapid.SampledFrom([]string{"-", "bar", "bar", "foo-stale"}).Draw(w.rt, "edsReservedLabelVal")
+		}
 		w.C.Tracef("eds %s/%s label %s=%s", e.Namespace, e.Name, k, v)
 		_ = w.C.EditEDS(e.Namespace, e.Name, func(x *edsv1.ExtendedDaemonSet) {
 			if x.Labels == nil {
